@@ -148,6 +148,8 @@ def run(res, proofs_ok, proofs_why, only=None):
         res.violation({"property": "C07", "kind": "obligation",
                        "obligation": "correspondence:extract_bound_from_tracking vs Bound.bound_of_words",
                        "first_differences": diffs[:5], "count": len(diffs)}, found_input=False)
+    if only is None:
+        poller_part(res, rng)
     if not proofs_ok:
         res.violation({"property": "C07", "kind": "obligation", "obligation": proofs_why}, found_input=False)
 
@@ -199,6 +201,45 @@ def phc_part(res, rng):
         res.violation({"property": "C07", "kind": "obligation", "obligation": "correspondence:process_clock_update (published bound)",
                        "first_differences": bad_first}, found_input=False)
     return bad
+
+
+def poller_part(res, rng):
+    """the PHC error bound on its way in: the real poll loop reads it from a (scratch) sysfs file
+    and must forward exactly the number in the file, whatever its size, when the PHC is chronyd's
+    reference (harness op `pol`, fake chronyd, private mount namespace)"""
+    from props import _poller
+    scripts = []
+    for _ in range(25 if res.tier == "quick" else 400):
+        start = rng.randrange(10, 10 ** 5) * NS
+        cfg = rng.choice([0x50484330, 0x50484331, 12345])
+        steps, t = [], start + NS
+        for _k in range(rng.randrange(1, 5)):
+            phc = rng.choice([0, 7, 99999999, 100000000, 250000000, 4294967296, 123456789012, 2 ** 62, rng.randrange(10 ** 13)])
+            steps.append((t, 1, rng.choice([0, 1000, 10 ** 6]), 0, phc, cfg, rng.randrange(1, 60000)))
+            t += NS + rng.randrange(NS)
+        scripts.append((start, cfg, steps))
+    lines = [_poller.line_of(*sc) for sc in scripts]
+    impl = c.run_lines_in_namespace(c.build_harness("debug")[0], lines, timeout=900)
+    model = c.run_model(lines)
+    res.evaluations += len(lines)
+    res.count("gen:PHC error bound read by the poll loop", len(lines))
+    bad, diffs = [], []
+    for sc, ln, i, m in zip(scripts, lines, impl, model):
+        exp = _poller.expected(*sc)
+        got = i.split()[:len(exp)]
+        res.nontriv(ln)
+        if " ".join(x for x in i.split() if not x.startswith("ORDER:")) != m:
+            diffs.append({"case": ln, "impl": i, "model": m})
+        if got != exp:
+            k = next((j for j in range(len(exp)) if j >= len(got) or got[j] != exp[j]), 0)
+            bad.append({"case": ln, "impl": i, "model": m,
+                        "why": ["iteration %d forwards %s; the PHC file held %s (D:<as-of>:<PHC error bound>:<ref id>:<tag>)" % (k, got[k] if k < len(got) else "nothing", exp[k])]})
+    res.oblige("correspondence:poll loop forwards the PHC error bound it read (real loop, fake chronyd) vs Poller.poll_run", not diffs)
+    if bad:
+        res.violation({"property": "C07", "kind": "history", "case": bad[0], "others": [b["case"] for b in bad[1:4]],
+                       "predicate": "the PHC term of the published bound is the number the PHC driver reports", "how_to_replay": "./check C13 --replay <this file>"})
+    elif diffs:
+        res.violation({"property": "C07", "kind": "obligation", "obligation": "correspondence: poll loop (PHC error bound)", "first_differences": diffs[:3]}, found_input=False)
 
 
 def replay(res, path):
